@@ -162,25 +162,27 @@ func c11r3(r *R) {
 			r.Ob("C11.R3", "handshake-without-context:"+funcName(fn)).AtI(s).Fail("tls.Conn.Handshake() without a context: neither the handshake timeout nor server shutdown can abort it")
 		}
 		for _, s := range callsIn(fn, "(*crypto/tls.Conn).HandshakeContext") {
-			n++
-			e := c.Expr(callOf(s).Args[1])
-			gs := c.guardStrs(s.Block())
-			o := r.Ob("C11.R3", "handshake-context:"+funcName(fn)+":"+map[bool]string{true: "no-timeout", false: "timeout"}[e == "p0.ctx"]).AtI(s)
-			switch {
-			case e == "p0.ctx":
-				o.Check(hasGuard(gs, "+(0 == p0.TLSHandshakeTimeout)"), "handshake runs under the bare server context although a handshake timeout may be configured; guards %v", gs)
-			case e == "context.WithTimeout(p0.ctx, p0.TLSHandshakeTimeout)#0":
-				// cancel deferred
-				dd := deferOf(fn, func(d *ssa.Defer) bool {
-					return c.Expr(d.Call.Value) == "context.WithTimeout(p0.ctx, p0.TLSHandshakeTimeout)#1"
-				})
-				o.Check(dd != nil, "the timeout context's cancel func is not deferred (timer leak per connection)")
-			default:
-				o.Fail("handshake context is %s; want server.ctx or context.WithTimeout(server.ctx, server.TLSHandshakeTimeout)", e)
+			// one call per branch, or one call with the context chosen per branch
+			for _, vc := range c.valueCases(callOf(s).Args[1], s.Block()) {
+				n++
+				e, gs := vc.E, vc.Guards
+				o := r.Ob("C11.R3", "handshake-context:"+funcName(fn)+":"+map[bool]string{true: "no-timeout", false: "timeout"}[e == "p0.ctx"]).AtI(s)
+				switch {
+				case e == "p0.ctx":
+					o.Check(hasGuard(gs, "+(0 == p0.TLSHandshakeTimeout)"), "handshake runs under the bare server context although a handshake timeout may be configured; guards %v", gs)
+				case e == "context.WithTimeout(p0.ctx, p0.TLSHandshakeTimeout)#0":
+					// cancel deferred
+					dd := deferOf(fn, func(d *ssa.Defer) bool {
+						return c.Expr(d.Call.Value) == "context.WithTimeout(p0.ctx, p0.TLSHandshakeTimeout)#1"
+					})
+					o.Check(dd != nil, "the timeout context's cancel func is not deferred (timer leak per connection)")
+				default:
+					o.Fail("handshake context is %s; want server.ctx or context.WithTimeout(server.ctx, server.TLSHandshakeTimeout)", e)
+				}
 			}
 		}
 	}
-	r.Ob("C11.R3", "instances").Check(n >= 2, "expected >= 2 HandshakeContext sites, found %d", n)
+	r.Ob("C11.R3", "instances").Check(n >= 2, "expected >= 2 HandshakeContext cases (with / without timeout), found %d", n)
 	// configuration wiring
 	dps := c.Func("", "defaultProxyServer")
 	r.need(dps != nil, "defaultProxyServer not found")
@@ -251,11 +253,13 @@ func c11r4(r *R) {
 		return
 	}
 	for _, st := range stores {
-		e := c.Expr(st.Val)
-		okv := e == "p0.HTTPServer.IdleTimeout" || e == "p0.HTTPServer.ReadTimeout" || e == "fingerproxy.parseHTTPIdleTimeout()"
-		o.Check(okv, "http2.Server.IdleTimeout is set from %s, want the HTTP server's idle (or read) timeout", e)
-		if e == "p0.HTTPServer.ReadTimeout" {
-			o.Check(hasGuard(c.guardStrs(st.Block()), "-(0 != p0.HTTPServer.IdleTimeout)"), "ReadTimeout is used although IdleTimeout is set; guards %v", c.guardStrs(st.Block()))
+		for _, vc := range c.valueCases(st.Val, st.Block()) {
+			e := vc.E
+			okv := e == "p0.HTTPServer.IdleTimeout" || e == "p0.HTTPServer.ReadTimeout" || e == "fingerproxy.parseHTTPIdleTimeout()"
+			o.Check(okv, "http2.Server.IdleTimeout is set from %s, want the HTTP server's idle (or read) timeout", e)
+			if e == "p0.HTTPServer.ReadTimeout" {
+				o.Check(hasGuard(vc.Guards, "-(0 != p0.HTTPServer.IdleTimeout)"), "ReadTimeout is used although IdleTimeout is set; guards %v", vc.Guards)
+			}
 		}
 		if st.Parent() == setup {
 			// every path where the h2 idle timeout is unset reaches a store
